@@ -561,3 +561,6 @@ MUTANTS += [
 HARMLESS += [
  {"id": "h-c07-group-target-filter-redundant", "prop": "C07", "file": _SI, "old": "                    if is_target != other_is_target or \\\n                            (is_target and other_is_target and\n                             idx is not other_idx):\n                        continue", "new": "                    if is_target != other_is_target:\n                        continue"},
 ]
+MUTANTS += [
+ {"id": "c04-taylor-float-exponent", "prop": "C04", "file": "adcgen/intermediate_states.py", "old": "        f = (1 + x) ** Rational(-1, 2)\n", "new": "        f = (1 + x) ** -0.5\n"},
+]
